@@ -46,19 +46,20 @@ theorem pto_expiry_doubles_backoff (m : Manager) (now : Nat)
 /-- `lost_sound` for the manager: over any history, whenever an operation reports a packet lost,
     that packet was tracked, a LATER packet number is the manager's largest acknowledged one, and
     either it is ≥ `K_PACKET_THRESHOLD` = 3 older, or it was sent so long ago that the time
-    threshold — `loss_time_threshold()` of an RTT estimator state, hence ≥ 1 ms — elapses within
-    less than the timer granularity (`lost_sound`; strict reading refuted by F2). -/
+    threshold `thr` elapses within less than the timer granularity (`lost_sound`; the strict
+    reading is refuted by F2).  `thr` is the current `loss_time_threshold()` of the RTT estimator
+    of the path the packet was sent on — 9/8 of `max(smoothed_rtt, latest_rtt)`, never less than
+    1 ms (`loss_time_threshold_spec`, `loss_time_threshold_ge_granularity`). -/
 theorem manager_lost_sound (m : Manager) (op : Op) (hm : HInv m) :
     ∀ pn ∈ (step m op).2.1.lost, ∃ p ∈ m.sent, p.pn = pn ∧ ∃ la now thr,
-      op.now? = some now ∧ (step m op).1.largestAcked = some la ∧ la > pn ∧ 1000000 ≤ thr ∧
-      (∃ r, thr = Rtt.lossTimeThreshold r) ∧
+      op.now? = some now ∧ (step m op).1.largestAcked = some la ∧ la > pn ∧
+      thr = Rtt.lossTimeThreshold ((step m op).1.paths p.pathId).rtt ∧ 1000000 ≤ thr ∧
       (la - pn ≥ 3 ∨ p.timeSent * 1000 + thr < now * 1000 + Time.K_GRANULARITY_NS) := by
   intro pn hpn
-  obtain ⟨p, hp, hpn', la, now, hnow, hla, r, hdet⟩ := (step_ok m op hm.inv).lost pn hpn
+  obtain ⟨p, hp, hpn', la, now, hnow, hla, hdet⟩ := (step_ok m op hm.inv).lost pn hpn
   have := lost_sound _ _ _ _ _ _ hdet
   subst hpn'
-  exact ⟨p, hp, rfl, la, now, Rtt.lossTimeThreshold r, hnow, hla, this.1, loss_time_threshold_ge_granularity r,
-    ⟨r, rfl⟩, this.2⟩
+  exact ⟨p, hp, rfl, la, now, _, hnow, hla, this.1, rfl, loss_time_threshold_ge_granularity _, this.2⟩
 
 /-- `bytes_in_flight_exact`: after every operation of every history, for every path the
     congestion controller's bytes-in-flight counter equals the total size of the unresolved packets
